@@ -164,6 +164,38 @@ fn corpus() -> Vec<Edge> {
         edge("cfg-garbage", "#[typeshare]\n#[cfg(any(target_os = 5, not()))]\npub struct A { #[cfg(target_os)] pub a: u8 }\n"),
         edge("doc-non-string", "#[typeshare]\n#[doc = 5]\n#[doc(hidden)]\npub struct A { pub a: u8 }\n"),
         edge("deep-type", &format!("#[typeshare]\npub struct A {{ pub a: {}u8{} }}\n", "Vec<".repeat(200), ">".repeat(200))),
+        // 40 layers of two structs, each referring to both structs of the next layer (directly, in an Option, in a Vec):
+        // 80 small ordinary items with 2^40 paths through their reference graph; and the same as a chain of enums
+        edge(
+            "layered-reference-graph",
+            &(0..40)
+                .map(|i| {
+                    let next = |k: usize| if i == 39 { "u8".to_string() } else { format!("L{}x{k}", i + 1) };
+                    format!(
+                        "#[typeshare]\npub struct L{i}x0 {{ pub a: {}, pub b: Option<{}> }}\n#[typeshare]\npub struct L{i}x1 {{ pub a: Vec<{}>, pub b: {} }}\n",
+                        next(0),
+                        next(1),
+                        next(0),
+                        next(1)
+                    )
+                })
+                .collect::<String>(),
+        ),
+        edge(
+            "layered-reference-graph-of-enums-and-aliases",
+            &(0..36)
+                .map(|i| {
+                    let next = |k: usize| if i == 35 { "String".to_string() } else { format!("M{}x{k}", i + 1) };
+                    format!(
+                        "#[typeshare]\n#[serde(tag = \"t\", content = \"c\")]\npub enum M{i}x0 {{ A({}), B {{ f: {} }} }}\n#[typeshare]\npub type M{i}x1 = HashMap<String, M{i}x2>;\n#[typeshare]\npub struct M{i}x2 {{ pub a: {}, pub b: {} }}\n",
+                        next(0),
+                        next(1),
+                        next(0),
+                        next(1)
+                    )
+                })
+                .collect::<String>(),
+        ),
         edge("many-fields", &format!("#[typeshare]\npub struct A {{ {} }}\n", (0..3000).map(|i| format!("pub f{i}: u8,")).collect::<String>())),
         edge("self-referential-alias", "#[typeshare]\npub type A = Vec<A>;\n#[typeshare]\npub type B = C;\n#[typeshare]\npub type C = B;\n"),
         edge("mutually-recursive-generics", "#[typeshare]\npub struct A<T> { pub b: Option<Box<B<T>>> }\n#[typeshare]\npub struct B<T> { pub a: Vec<A<T>> }\n"),
@@ -212,7 +244,7 @@ fn corpus() -> Vec<Edge> {
 
 /// (class, source) of every single-file edge case, for the Miri slice
 pub fn corpus_sources() -> Vec<(String, String)> {
-    corpus().into_iter().filter(|e| e.class != "many-fields" && e.class != "deep-type").map(|e| (e.class.to_string(), e.source)).collect()
+    corpus().into_iter().filter(|e| e.class != "many-fields" && e.class != "deep-type" && !e.class.starts_with("layered-reference-graph")).map(|e| (e.class.to_string(), e.source)).collect()
 }
 
 struct Verdict {
